@@ -356,7 +356,7 @@ pub fn c07(tier: Tier) -> i32 {
                         continue;
                     };
                     // law: L(wrapped) == L(E); family = (wrapped; [E])
-                    let me = Member { text: e.text.clone(), dfa: Dfa::new(&e_dfa.pattern).unwrap() };
+                    let me = Member { text: e.text.clone(), dfa: Dfa::new_search(&e_dfa.pattern).unwrap() };
                     let w_ast = syntax::parse(&m.text).unwrap_or_default();
                     check_family(&rep, c, "wrapping", &m.text, &m.dfa, &w_ast, std::slice::from_ref(&me), Law::Equal);
                 }
